@@ -7,15 +7,17 @@
 (*   script (Mode "script"): cases of the driver's seeded generator (stacks of 2..25 tilts, sizes 4..40)      *)
 EXTENDS TiltStack, IOUtils
 
+Params == JsonDeserialize(IOEnv.C15_PARAMS)
 SmallShapes == {<<2, 3, "uniq", 1>>, <<3, 2, "uniq", 1>>, <<5, 4, "uniq", 1>>, <<2, 4, "bin", 2>>, <<3, 6, "bin", 3>>}
 SmallStacks == {[stack |-> MkStack([n |-> n, h |-> s[1], w |-> s[2], kind |-> s[3], f |-> s[4]]), dtype |-> ty] :
                    n \in 2..4, s \in SmallShapes, ty \in {"f32", "i16"}}
 TinyStacks == {[stack |-> MkStack([n |-> 2, h |-> 2, w |-> 3, kind |-> "uniq", f |-> 1]), dtype |-> "f32"]}
-AllCfgs == [io : Orders, oo : Orders, src : {"array", "file"}, outf : BOOLEAN]
-OneCfg == {[io |-> "xyz", oo |-> "xyz", src |-> "array", outf |-> TRUE]}
+\* (the storage forms offered come from the driver: one seeded form in the quick tier, all four in the thorough one)
+Forms == {Params.forms[i] : i \in DOMAIN Params.forms}
+AllCfgs == [io : Orders, oo : Orders, src : {"array", "file"}, outf : BOOLEAN, af : Forms]
+OneCfg == {[io |-> "xyz", oo |-> "xyz", src |-> "array", outf |-> TRUE, af |-> "c"]}
 NoCases == <<>>
 NoStacks == {}
 
-Params == JsonDeserialize(IOEnv.C15_PARAMS)
 ScriptCases == Params.cases
 =============================================================================
